@@ -42,7 +42,8 @@ PROFILES = {
         "n_models": [1],
         "want": [{}, {"stochastic": True, "periods": (3, 5)}, {"stochastic": True, "two_stochastic": True, "periods": (2, 5)}, {"cstate": True}, {"filter": True}, {"cstate": True, "cstate2": True}],
         "workers": [1, 1, 2],
-        "fault_free_p": 0.8,
+        "fault_free_p": 0.65,
+        "fault_bias": "simulate",
         "restart_p": 0.1,
         "batch_size": (8, 40),
         "n_sigs": (2, 4),
@@ -148,10 +149,12 @@ def _sig_solve(mid, pid):
     return f"SOLVE|{mid}|{pid}"
 
 
-def _sig_sim(mid, pid, content, seed, vp, targets):
+def _sig_sim(mid, pid, content, seed, vp, targets, seed_t="py"):
     s = DEFAULT_SEED if seed is None else seed
     base = f"SIM|{mid}|{pid}|{content}|vp={vp}|t={','.join(targets or [])}"
-    return base + f"|seed={s}", base
+    # the type of the seed object is part of the call signature: nothing in the property equates
+    # seed=-7 with seed=np.int32(-7) (jax derives different keys from them)
+    return base + f"|seed={s}" + ("" if seed_t == "py" else f":{seed_t}"), base
 
 
 def make_run_plan(run_seed: int, profile: str, tier: str = "quick", overrides: dict | None = None) -> dict:
@@ -172,6 +175,9 @@ def make_run_plan(run_seed: int, profile: str, tier: str = "quick", overrides: d
     restart = rng.random() < (max(P["restart_p"], 0.75) if n_models == 2 else P["restart_p"])
     spy = rng.choice(P["spy"])
     quanta_mix = rng.choice(list(QUANTA_MIXES))
+    # probability of handing the baton to another worker right after a statement that writes to
+    # possibly shared memory (dsim/sharedwrites.py)
+    write_p = rng.choice(P.get("write_p", [0.0, 0.5, 1.0])) if n_workers > 1 else 0.0
     big = bool(P.get("big"))
     if big and tier == "thorough":
         P["batch_size"] = rng.choice([(20000, 20000), (50000, 50000), (100000, 100000)])
@@ -281,12 +287,17 @@ def make_run_plan(run_seed: int, profile: str, tier: str = "quick", overrides: d
             for pid in rng.sample(pids, rng.randint(1, min(2, len(pids)))):
                 sigs.append({"kind": "SOLVE", "mid": mid, "pid": pid})
         tgt_pool = [t for t in meta["aux"] + ["utility"] + meta["next_det"] + meta["constraints"]]
-        seeds_pool = [None, rng.randint(0, 2**31 - 1), rng.randint(0, 1000)]
+        neg = -rng.randint(1, 1000)
+        small = rng.randint(0, 1000)
+        seeds_pool = [
+            (None, "py"), (rng.randint(0, 2**31 - 1), "py"), (small, "py"), (0, "py"), (rng.randint(2**32, 2**40), "py"),
+            (neg, "py"), (neg, "i32"), (small, "i64"), (rng.randint(0, 1000), "i32"),
+        ]
         if P.get("membership"):
             pid = rng.choice(pids)
-            seed = rng.choice(seeds_pool)
+            seed, seed_t = rng.choice(seeds_pool)
             for bid in bids:
-                sigs.append({"kind": "SIM", "mid": mid, "pid": pid, "bid": bid, "seed": seed, "vp": pid, "targets": None})
+                sigs.append({"kind": "SIM", "mid": mid, "pid": pid, "bid": bid, "seed": seed, "seed_t": seed_t, "vp": pid, "targets": None})
             continue
         for _ in range(n_s):
             pid = rng.choice(pids)
@@ -300,12 +311,20 @@ def make_run_plan(run_seed: int, profile: str, tier: str = "quick", overrides: d
                 more = [t for t in tgt_pool if t not in targets]
                 comp = (targets + [rng.choice(more)]) if (more and (len(targets) == 1 or rng.random() < 0.5)) else targets[:-1]
                 if comp:
-                    sigs.append({"kind": "SIM", "mid": mid, "pid": pid, "bid": bid, "seed": None, "vp": vp, "targets": comp})
+                    sigs.append({"kind": "SIM", "mid": mid, "pid": pid, "bid": bid, "seed": None, "seed_t": "py", "vp": vp, "targets": comp})
             if P.get("seeds_per_batch"):
-                for sd in rng.sample(range(1, 10**6), P["seeds_per_batch"]):
-                    sigs.append({"kind": "SIM", "mid": mid, "pid": pid, "bid": bid, "seed": sd, "vp": vp, "targets": targets})
+                u = rng.random()
+                if u < 0.7:
+                    sds = [(x, "py") for x in rng.sample(range(1, 10**6), P["seeds_per_batch"])]
+                elif u < 0.85:
+                    sds = [(0, "py"), (rng.randint(2**32, 2**40), "py")][: P["seeds_per_batch"]]
+                else:
+                    sds = [(neg, "py"), (neg, "i32")][: P["seeds_per_batch"]]
+                for sd, sd_t in sds:
+                    sigs.append({"kind": "SIM", "mid": mid, "pid": pid, "bid": bid, "seed": sd, "seed_t": sd_t, "vp": vp, "targets": targets})
             else:
-                sigs.append({"kind": "SIM", "mid": mid, "pid": pid, "bid": bid, "seed": rng.choice(seeds_pool), "vp": vp, "targets": targets})
+                sd, sd_t = rng.choice(seeds_pool)
+                sigs.append({"kind": "SIM", "mid": mid, "pid": pid, "bid": bid, "seed": sd, "seed_t": sd_t, "vp": vp, "targets": targets})
     # estimation loops: the same call with p0 and with its neighbour p1
     est_loops = []
     if rng.random() < P.get("est_loop_p", 0.5):
@@ -362,10 +381,10 @@ def make_run_plan(run_seed: int, profile: str, tier: str = "quick", overrides: d
         }
 
     def sim_op(hid, s, worker=0, needs=(), vsrc=None, vsrc_kind=None, leaf="float", variant=False, vform="asis", bform="np"):
-        sig, sig_ns = _sig_sim(s["mid"], s["pid"], s["bid"], s["seed"], s["vp"], s["targets"])
+        sig, sig_ns = _sig_sim(s["mid"], s["pid"], s["bid"], s["seed"], s["vp"], s["targets"], s.get("seed_t", "py"))
         return {
             "id": b.oid(), "kind": "SIMULATE", "worker": worker, "handle": hid, "params": s["pid"], "leaf": leaf,
-            "batch": s["bid"] + ("~v" if variant else ""), "bform": bform, "seed": s["seed"], "targets": s["targets"],
+            "batch": s["bid"] + ("~v" if variant else ""), "bform": bform, "seed": s["seed"], "seed_t": s.get("seed_t", "py"), "targets": s["targets"],
             "vsrc": vsrc, "vsrc_kind": vsrc_kind, "vform": vform, "vparams": s["vp"], "model_id": s["mid"],
             "sig": sig, "sig_noseed": sig_ns, "needs": list(needs),
         }
@@ -713,13 +732,13 @@ def make_run_plan(run_seed: int, profile: str, tier: str = "quick", overrides: d
         incarnations.append(
             {
                 "hashseed": hashseeds[2],
-                "sched": {"seed": sched_seeds[2], "quanta": QUANTA, "weights": QUANTA_MIXES[quanta_mix]},
+                "sched": {"seed": sched_seeds[2], "quanta": QUANTA, "weights": QUANTA_MIXES[quanta_mix], "write_p": 0.0},
                 "phases": [{"name": "reference", "n_workers": 1, "ops": ref_ops_iso}],
             }
         )
 
     def sched_cfg(i):
-        return {"seed": sched_seeds[i], "quanta": QUANTA, "weights": QUANTA_MIXES[quanta_mix]}
+        return {"seed": sched_seeds[i], "quanta": QUANTA, "weights": QUANTA_MIXES[quanta_mix], "write_p": write_p}
 
     if not restart:
         chaos_final, mapping = finalize(chaos_ops)
@@ -790,7 +809,7 @@ def make_run_plan(run_seed: int, profile: str, tier: str = "quick", overrides: d
         "swarm": {
             "n_models": n_models, "n_workers": n_workers, "fault_kinds": fault_kinds, "extras": extras,
             "restart": restart, "spy": spy, "quanta": quanta_mix, "fresh_ref": fresh_ref, "leaf": default_leaf,
-            "iso_ref": sorted(iso_models), "debug_p": debug_p,
+            "iso_ref": sorted(iso_models), "debug_p": debug_p, "write_p": write_p,
         },
     }
 
